@@ -16,7 +16,8 @@ def main():
     prop = a.prop.upper()
     os.environ.setdefault('UDSONCAN_VERIF', '1')
     import logging
-    logging.disable(logging.CRITICAL)
+    # the library's log output goes nowhere, but logging stays switched on: clients made with the 'dbg' logger name run at DEBUG level (clientlib)
+    logging.getLogger().addHandler(logging.NullHandler())
     mod = importlib.import_module('harness.props.' + prop.lower())
     if a.replay:
         if hasattr(mod, 'replay'):
